@@ -1,6 +1,9 @@
 import RgVerif.Lemmas.GitLine3
 import RgVerif.Lemmas.GitStar
 import RgVerif.Lemmas.GitBlank
+import RgVerif.Lemmas.GitClass
+import RgVerif.Lemmas.GitStarP
+import RgVerif.Lemmas.GitEsc
 import RgVerif.Model.GitignoreAnchors
 /-
 C04 — ignore files mean what git says.  Only the deciding statements; proofs in `Lemmas/Git*.lean`.
@@ -64,17 +67,53 @@ them (`trim_right` unless the line ends in `\\ `; git's `trim_trailing_spaces`).
 theorem addline_wildmatch_blanks (ci : Bool) (l : List Nat) (h : okLineB ci l = true) : LineAgree ci l :=
   lineAgree_of_okLineB ci l h
 
-/-- lines the composition below accepts: the wildcard and the `**` sub-grammars, comments, empty lines -/
+/-- **Bracket classes** (`okLineC`: `[!][/]core[/]` with `core` made of wildcard runs and classes `[…]`,
+`[!…]`, `[^…]` listing single characters and ranges, `]` or `-` first, `-` last; `okLineCB`: the same followed
+by unescaped spaces).  Guards, each one a recorded difference or a git peculiarity: the class must not accept
+`/` (finding `bracket-class-admits-slash`); under case folding no single upper-case letter is listed (git
+lower-cases the text but compares listed characters as written, so `[A]` matches nothing); no range starts at
+NUL.  Then ripgrep's regex class and git's `wildmatch` class have the same members, negation and case folding
+inside ranges included, and the line selects the same entries. -/
+theorem addline_wildmatch_classes (ci : Bool) (l : List Nat) (h : (okLineC ci l || okLineCB ci l) = true) :
+    LineAgree ci l := by
+  rcases Bool.or_eq_true_iff.mp h with h | h
+  · exact lineAgree_of_okLineC ci l h
+  · exact lineAgree_of_okLineCB ci l h
+
+/-- **`**` together with bracket classes** (`okLineSP`: core [`**/`] P₀ (`/**/` Pᵢ)* [`/**`] whose segments Pᵢ
+are made of wildcard runs and classes, e.g. `**/*.[oa]`, `/src/**/[a-z]*.rs`, `build/**`; `okLineSPB`: the same
+followed by unescaped spaces; class guards as in `addline_wildmatch_classes`). -/
+theorem addline_wildmatch_dstar_classes (ci : Bool) (l : List Nat)
+    (h : (okLineSP ci l || okLineSPB ci l) = true) : LineAgree ci l := by
+  rcases Bool.or_eq_true_iff.mp h with h | h
+  · exact lineAgree_of_okLineSP ci l h
+  · exact lineAgree_of_okLineSPB ci l h
+
+/-- **An escaped `!` or `#` at the start** (`okLineE`: `\!…` / `\#…`, the remainder in the wildcard
+sub-grammar, optionally directory-only, optionally followed by unescaped spaces): ripgrep drops the backslash
+before compiling, git's `wildmatch` reads `\!` / `\#` as the literal character — neither a negation nor a
+comment, and the same entries are selected. -/
+theorem addline_wildmatch_escaped_first (ci : Bool) (l : List Nat) (h : okLineE ci l = true) : LineAgree ci l :=
+  lineAgree_of_okLineE ci l h
+
+/-- lines the composition below accepts: the wildcard, the `**` and the class sub-grammars and their mixture
+(optionally followed by blanks), `\!…` / `\#…`, comments, empty lines -/
 def okFileLine (ci : Bool) (l : List Nat) : Bool :=
-  okLineW ci l || okLineS ci l || okLineB ci l || l.isEmpty || l.head? == some 35
+  okLineW ci l || okLineS ci l || okLineB ci l || okLineC ci l || okLineCB ci l || okLineSP ci l ||
+    okLineSPB ci l || okLineE ci l || l.isEmpty || l.head? == some 35
 
 theorem lineAgree_of_okFileLine (ci : Bool) (l : List Nat) (h : okFileLine ci l = true) : LineAgree ci l := by
   unfold okFileLine at h
   simp only [Bool.or_eq_true, beq_iff_eq] at h
-  rcases h with (((h | h) | h) | h) | h
+  rcases h with ((((((((h | h) | h) | h) | h) | h) | h) | h) | h) | h
   · exact lineAgree_of_okLineW ci l h
   · exact lineAgree_of_okLineS ci l h
   · exact lineAgree_of_okLineB ci l h
+  · exact lineAgree_of_okLineC ci l h
+  · exact lineAgree_of_okLineCB ci l h
+  · exact lineAgree_of_okLineSP ci l h
+  · exact lineAgree_of_okLineSPB ci l h
+  · exact lineAgree_of_okLineE ci l h
   · have : l = [] := by simpa using h
     subst this
     intro rel isDir _
@@ -111,6 +150,37 @@ theorem addline_wildmatch_full_fails : ¬ addline_wildmatch_full := by
   revert this
   have hm : mHit false [97, 91, 33, 98, 93, 99] (joinPath [[97], [99]]) false = some true := by decide
   have hs : sHit false [97, 91, 33, 98, 93, 99] [[97], [99]] false = none := by
+    simp [sHit, GitSpec.parsePat, GitSpec.patMatches, GitSpec.trimSpaces, GitSpec.trimSpaces.go,
+      GitSpec.stripNeg, GitSpec.stripDir, GitSpec.stripLead, GitSpec.wm]
+  rw [hm, hs]
+  simp
+
+/-- second witness: the line `/b**` and the file `b/x` — git's `match_pathname` compares the literal prefix `b`
+on its own and hands `**` against `/x` to `wildmatch`, where the `**` now stands at the start of the pattern
+and spans directories; ripgrep (like gitignore(5): "other consecutive asterisks are considered regular
+asterisks") reads `b**` as `b*`, which does not cross `/`.  Visible when such a line is negated
+(`*/x` then `!/b**`: git keeps `b/x`, ripgrep skips it).  Recorded finding `literal-prefix-then-double-star`. -/
+theorem addline_wildmatch_prefix_dstar_fails : ¬ LineAgree false [47, 98, 42, 42] := by
+  intro h
+  have := h [[98], [120]] false (by decide)
+  revert this
+  have hm : mHit false [47, 98, 42, 42] (joinPath [[98], [120]]) false = none := by decide
+  have hs : sHit false [47, 98, 42, 42] [[98], [120]] false = some true := by
+    simp [sHit, GitSpec.parsePat, GitSpec.patMatches, GitSpec.trimSpaces, GitSpec.trimSpaces.go,
+      GitSpec.stripNeg, GitSpec.stripDir, GitSpec.stripLead, GitSpec.matchPathname, GitSpec.simpleLen,
+      GitSpec.isGlobSpecial, GitSpec.eqFold, GitSpec.joinComps, GitSpec.wm, GitSpec.skipWhile]
+  rw [hm, hs]
+  simp
+
+/-- third witness: the line `a<TAB>` and the file `a` — `add_line` uses `trim_right`, which removes every kind of
+trailing white space, so ripgrep ignores `a`; git's `trim_trailing_spaces` removes only spaces, so its pattern is
+`a<TAB>` and `a` is kept.  Recorded finding `trailing-nonspace-whitespace-trimmed`. -/
+theorem addline_wildmatch_trailing_tab_fails : ¬ LineAgree false [97, 9] := by
+  intro h
+  have := h [[97]] false (by decide)
+  revert this
+  have hm : mHit false [97, 9] (joinPath [[97]]) false = some true := by decide
+  have hs : sHit false [97, 9] [[97]] false = none := by
     simp [sHit, GitSpec.parsePat, GitSpec.patMatches, GitSpec.trimSpaces, GitSpec.trimSpaces.go,
       GitSpec.stripNeg, GitSpec.stripDir, GitSpec.stripLead, GitSpec.wm]
   rw [hm, hs]
